@@ -373,6 +373,6 @@ def variable_conversion_eval(chk, repo, rule):
             chk.require(d is data, rule, where, "non-Array data passes through as is", f"non-Array data reaches xr.Variable as {d!r:.60}", key="to_variable:plain")
         else:
             inner = d.fields.get("array") if isinstance(d, Obj) and d.cls == "LazilyIndexedArray" else None
-            ok2 = isinstance(inner, Obj) and inner.cls == "LazilyIndexedWrapper" and inner.fields.get("array") is data and isinstance(inner.fields.get("lock"), Obj)
-            chk.require(ok2, rule, where, "Array data is wrapped as LazilyIndexedArray(LazilyIndexedWrapper(array, lock))",
+            ok2 = isinstance(inner, Obj) and inner.cls == "LazilyIndexedWrapper" and inner.fields.get("array") is data  # which lock (if any) is C19's business
+            chk.require(ok2, rule, where, "Array data is wrapped as LazilyIndexedArray(LazilyIndexedWrapper(array, ...))",
                         f"Array data reaches xr.Variable as {d!r:.80}: not the lazily indexed wrapper around the variable's own array", key="to_variable:lazy")
